@@ -12,6 +12,7 @@ Observed per call: ok(profile id)/error kind, the DTPROFUP of every PROFRQ the f
 import io
 import itertools
 import os
+import tempfile
 import threading
 
 import fakehttp as F
@@ -19,12 +20,14 @@ from framework import canon_exc
 from proto import line, Atom, opt, dstr
 
 RULE = ("sequential histories over the server behaviours {newer, same date/other body, older, up-to-date, error status, "
-        "garbage, transport error}: every history of length <= 4 from an absent cache and of length <= 3 from a cached "
-        "profile (thorough: <= 6 / <= 5), executed as a prefix tree (each prefix once, the cache file restored between "
-        "siblings; the method keeps no other state); random histories (length <= 6) that add status-0-without-PROFRS and "
-        "HTTP 500, start from absent / complete / empty / truncated / mixed cache files, re-create the client at random "
-        "and use random ORG/FID; crash points and all 20 interleavings of two writers' open/write/close replayed on the "
-        "real method through a wrapper around `open`; a case is non-trivial when at least one call reached the server")
+        "garbage, transport error}: every history of length <= 3 from an absent cache and from a cached profile plus a "
+        "random sample of length 4 (thorough: all of length <= 6 / <= 5), executed as prefix trees (each prefix once, the "
+        "cache file restored between siblings; the method keeps no other state); random histories (length <= 6) that add "
+        "status-0-without-PROFRS and HTTP 500, start from absent / complete / empty / truncated / mixed cache files, "
+        "re-create the client at random and use random ORG/FID; six crash points (a forked child that really dies with "
+        "os._exit) and interleavings of two writers' mkstemp/write/close/replace (a sample of the 70 in quick, all in "
+        "thorough, both size orders) replayed on the real method through proxies for the names `os` and `tempfile` in "
+        "ofxtools.Client; a case is non-trivial when at least one call reached the server")
 
 U = "https://h0.example/p0"
 V = "https://h1.example/p0"
@@ -325,124 +328,141 @@ def spec_oracle(ctx, jobs, observed):
 
 
 # ----------------------------------------------------------------------------------------------
-# wrapper around `open` as seen by ofxtools.Client: gates / crash points
+# proxies for the names `os` and `tempfile` as seen by ofxtools.Client: gates / crash points
 # ----------------------------------------------------------------------------------------------
-class OpenWrap:
-    """Installed as the module global `ofxtools.Client.open`.  `gate(kind, path)` is called before each of
-    'openwb' / 'write' / 'close' (kind) by the calling thread; it may raise Crash."""
+ACTS = ("mkstemp", "write", "close", "replace")
 
-    def __init__(self, gate):
+
+class Hooks:
+    """Installed over the module globals `os` and `tempfile` of ofxtools.Client (nothing else sees them).
+    `gate(kind)` runs before and `after(kind)` after each of the four actions of the write phase:
+    tempfile.mkstemp, f.write, leaving the `with os.fdopen(...)` block, os.replace."""
+
+    def __init__(self, gate, after=None):
         self.gate = gate
-
-    def __call__(self, path, mode="r", *a, **k):
-        if "w" not in mode:
-            return open(path, mode, *a, **k)
-        self.gate("openwb")
-        return _WFile(open(path, mode, *a, **k), self.gate)
+        self.after = after or (lambda kind: None)
 
     def __enter__(self):
         import ofxtools.Client as C
-        C.open = self
+        hooks = self
+
+        class OsProxy:
+            def __getattr__(self, name):
+                return getattr(os, name)
+
+            def fdopen(self, fd, *a, **k):
+                return _WFile(os.fdopen(fd, *a, **k), hooks)
+
+            def replace(self, src, dst):
+                hooks.gate("replace")
+                os.replace(src, dst)
+                hooks.after("replace")
+
+        class TmpProxy:
+            def __getattr__(self, name):
+                return getattr(tempfile, name)
+
+            def mkstemp(self, *a, **k):
+                hooks.gate("mkstemp")
+                r = tempfile.mkstemp(*a, **k)
+                hooks.after("mkstemp")
+                return r
+
+        def open_(path, mode="r", *a, **k):
+            # the repaired code does not open the cache file for writing at all; if some version does (in-place
+            # rewrite), that is the action 'inplace': the file has just been truncated
+            f = open(path, mode, *a, **k)
+            if "w" in mode:
+                hooks.gate("inplace")
+            return f
+
+        self.saved = {n: C.__dict__.get(n, _MISSING) for n in ("os", "tempfile", "open")}
+        C.os, C.tempfile, C.open = OsProxy(), TmpProxy(), open_
         return self
 
     def __exit__(self, *a):
         import ofxtools.Client as C
-        del C.open
+        for n, v in self.saved.items():
+            if v is _MISSING:
+                C.__dict__.pop(n, None)
+            else:
+                setattr(C, n, v)
         return False
 
 
+_MISSING = object()
+
+
 class _WFile:
-    def __init__(self, f, gate):
-        self.f, self.gate = f, gate
+    def __init__(self, f, hooks):
+        self.f, self.hooks = f, hooks
 
     def __enter__(self):
         return self
 
     def write(self, data):
-        self.gate("write")
+        self.hooks.gate("write")
         n = self.f.write(data)
         self.f.flush()          # the model makes the data visible at `write`
+        self.hooks.after("write")
         return n
 
     def __exit__(self, *a):
         try:
             if a[0] is None:
-                self.gate("close")
+                self.hooks.gate("close")
         finally:
             self.f.close()
+        if a[0] is None:
+            self.hooks.after("close")
         return False
 
 
+def stray_files(org="ORG", fid="FID"):
+    d = F.profile_dir()
+    if not d.exists():
+        return []
+    return sorted(x.name for x in d.iterdir() if x.name != f"{org}-{fid}.profrs")
+
+
+def clean_strays():
+    for n in stray_files():
+        (F.profile_dir() / n).unlink()
+
+
 # ----------------------------------------------------------------------------------------------
+def tree_tasks(d_abs, d_held, held):
+    tasks = []
+    for i, s in enumerate(SYMS):
+        tasks.append((f"C15-a{i}", ("absent",), s, d_abs))
+        tasks.append((f"C15-h{i}", held, s, d_held))
+    return tasks
+
+
 def run(ctx):
     rng = ctx.rng
     import multiprocessing as mp
     from ofxtools.Client import OFXClient  # noqa  (import in the parent before forking)
 
-    # ---- constants / file name -------------------------------------------------------------------
-    with Bench("C15-main") as bench:
-        names = [None, "ORG", "A-B", "B", "None", "x y", "Ünï", "a.b", ""]
-        pairs = [(o, f) for o in names for f in names]
-        rng.shuffle(pairs)
-        pairs = [(None, None), ("A-B", "C"), ("A", "B-C"), ("None", None)] + pairs[: ctx.budget(10, 81)]
-        reps = ctx.model.ask([line("cache.key", opt(o), opt(f)) for o, f in pairs])
-        for (o, f), rep in zip(pairs, reps):
-            F.wipe_profiles()
-            c = OFXClient(U, org=o, fid=f)
-            bench.cur = answer(("p", 5, 1, 0))
-            try:
-                c.request_profile()
-                made = sorted(x.name for x in F.profile_dir().iterdir())
-            except Exception as e:  # noqa
-                made = ["err", canon_exc(e)]
-            ctx.compare("cache.key", {"org": o, "fid": f}, made, [dstr(rep.vals[0])] if rep.ok else rep.raw)
-        F.wipe_profiles()
-
-        # ---- random histories ------------------------------------------------------------------------
-        jobs, observed = [], []
-        p0, p1 = (5, 90, 0), (7, 91, 2)
-        inits = [("absent",), ("complete", p0), ("complete", p1), ("empty",), ("prefix", p1, 2), ("mixed", p0, p1)]
-        for _ in range(ctx.budget(120, 3000)):
-            init = rng.choice(inits) if rng.random() < 0.5 else ("absent",)
-            top = init[1][0] if init[0] == "complete" else None
-            behs, obs = [], []
-            org, fid = rng.choice([("ORG", "FID"), (None, None), ("A-B", "C")])
-            bench.set_disk(disk_bytes(init), org, fid)
-            c = bench.client(org=org, fid=fid)
-            nbody = 100
-            for _k in range(rng.randint(1, 6)):
-                sym = rng.choice("NNNSOUUEGTXH")
-                beh, top = concretise(sym, top, nbody)
-                nbody += 1
-                if rng.random() < 0.3:
-                    c = bench.client(org=org, fid=fid)       # restarted client
-                behs.append(beh)
-                obs.append(bench.call(c, beh, org, fid))
-                ctx.stat("beh " + sym)
-            bench.set_disk(None, org, fid)
-            jobs.append((init, behs))
-            observed.append(obs)
-            ctx.stat("init " + init[0])
-        for (init, behs), obs, mod in zip(jobs, observed, model_seq(ctx, jobs)):
-            case = {"op": "seq", "init": init, "hist": behs}
-            ctx.compare("cache.run", case, canon_obs(obs, init, behs), canon_obs(mod, init, behs),
-                        nontrivial=any(o[1] is not None for o in obs))
-        ctx.sample({"op": "cache.run", "init": jobs[0][0], "hist": jobs[0][1], "observed": observed[0]})
-        spec_oracle(ctx, jobs, observed)
-
-        findings_replay(ctx, bench)
-
-    # ---- exhaustive prefix trees (worker processes, each with its own scratch dir) -----------------
-    d_abs, d_held = (6, 5) if ctx.thorough else (4, 3)
-    if os.environ.get("VERIF_BUDGET_SCALE") and ctx.escalated:
-        d_abs, d_held = min(d_abs + 1, 6), min(d_held + 1, 5)
+    d_abs, d_held = (6, 5) if ctx.thorough else (3, 3)
+    if ctx.escalated:
+        d_abs, d_held = max(d_abs, 5), max(d_held, 4)
     held = ("complete", (5, 90, 0))
-    tasks = []
-    for i, s in enumerate(SYMS):
-        tasks.append((f"C15-w{i}", ("absent",), s, d_abs))
-    tasks.append(("C15-w7", held, SYMS, d_held))
-    with mp.get_context("fork").Pool(3) as pool:
-        results = pool.map(tree_worker, tasks, chunksize=1)
+    tasks = tree_tasks(d_abs, d_held, held)
+
+    with Bench("C15-main") as bench:
+        # the three scenarios of the (former) negative theorems first: they fork, so before any helper thread exists
+        findings_crash(ctx, bench)
+        pool = mp.get_context("fork").Pool(3 if ctx.thorough else 2)
+        pending = pool.map_async(tree_worker, tasks, chunksize=1)
+        try:
+            main_part(ctx, bench, rng)
+            findings_interleave(ctx, bench, rng)
+            findings_key(ctx, bench)
+            results = pending.get(7200)
+        finally:
+            pool.terminate()
+
     jobs, observed = [], []
     for (name, init, first, depth), res in zip(tasks, results):
         for behs, obs in res:
@@ -454,110 +474,177 @@ def run(ctx):
                     canon_obs(mod, init, behs))
     spec_oracle(ctx, jobs, observed)
     ctx.stat("exhaustive histories", len(jobs))
-    ctx.exhaustive.append(f"all {len(SYMS)}^{d_abs} server histories from an absent cache and all {len(SYMS)}^{d_held} "
-                          f"from a cached profile ({len(jobs)} histories, every prefix executed on the real method)")
+    text = (f"all {len(SYMS)}^{d_abs} server histories from an absent cache and all {len(SYMS)}^{d_held} from a cached "
+            f"profile ({len(jobs)} histories, every prefix executed on the real method)")
+    (ctx.exhaustive if ctx.thorough else ctx.notes).append(text)
+
+
+def main_part(ctx, bench, rng):
+    from ofxtools.Client import OFXClient
+    # ---- file name ---------------------------------------------------------------------------------
+    names = [None, "ORG", "A-B", "B", "None", "x y", "Ünï", "a.b", ""]
+    pairs = [(o, f) for o in names for f in names]
+    rng.shuffle(pairs)
+    pairs = [(None, None), ("A-B", "C"), ("A", "B-C"), ("None", None)] + pairs[: ctx.budget(8, 81)]
+    reps = ctx.model.ask([line("cache.key", opt(o), opt(f)) for o, f in pairs])
+    for (o, f), rep in zip(pairs, reps):
+        F.wipe_profiles()
+        c = OFXClient(U, org=o, fid=f)
+        bench.cur = answer(("p", 5, 1, 0))
+        try:
+            c.request_profile()
+            made = sorted(x.name for x in F.profile_dir().iterdir())
+        except Exception as e:  # noqa
+            made = ["err", canon_exc(e)]
+        ctx.compare("cache.key", {"org": o, "fid": f}, made, [dstr(rep.vals[0])] if rep.ok else rep.raw)
+    F.wipe_profiles()
+
+    # ---- random histories ----------------------------------------------------------------------------
+    jobs, observed = [], []
+    p0, p1 = (5, 90, 0), (7, 91, 2)
+    inits = [("absent",), ("complete", p0), ("complete", p1), ("empty",), ("prefix", p1, 2), ("mixed", p0, p1)]
+    n_rand, n_len4 = ctx.budget(100, 3000), (0 if ctx.thorough else ctx.budget(150))
+    for k in range(n_rand + n_len4):
+        if k < n_rand:
+            init = rng.choice(inits) if rng.random() < 0.5 else ("absent",)
+            org, fid = rng.choice([("ORG", "FID"), (None, None), ("A-B", "C")])
+            syms = [rng.choice("NNNSOUUEGTXH") for _ in range(rng.randint(1, 6))]
+        else:   # the sample of the 7^4 space that the quick tier does not enumerate
+            init, (org, fid) = ("absent",), ("ORG", "FID")
+            syms = [rng.choice(SYMS) for _ in range(4)]
+        top = init[1][0] if init[0] == "complete" else None
+        behs, obs = [], []
+        bench.set_disk(disk_bytes(init), org, fid)
+        c = bench.client(org=org, fid=fid)
+        nbody = 100
+        for sym in syms:
+            beh, top = concretise(sym, top, nbody)
+            nbody += 1
+            if rng.random() < 0.3:
+                c = bench.client(org=org, fid=fid)       # restarted client
+            behs.append(beh)
+            obs.append(bench.call(c, beh, org, fid))
+            ctx.stat("beh " + sym)
+        bench.set_disk(None, org, fid)
+        jobs.append((init, behs))
+        observed.append(obs)
+        ctx.stat("init " + init[0])
+    for (init, behs), obs, mod in zip(jobs, observed, model_seq(ctx, jobs)):
+        case = {"op": "seq", "init": init, "hist": behs}
+        ctx.compare("cache.run", case, canon_obs(obs, init, behs), canon_obs(mod, init, behs),
+                    nontrivial=any(o[1] is not None for o in obs))
+    ctx.sample({"op": "cache.run", "init": jobs[0][0], "hist": jobs[0][1], "observed": observed[0]})
+    spec_oracle(ctx, jobs, observed)
 
 
 # ----------------------------------------------------------------------------------------------
-# the three negative theorems, replayed on the real method
+# crashes, concurrent writers, the key: replayed on the real method
 # ----------------------------------------------------------------------------------------------
-def findings_replay(ctx, bench):
-    P0, P1, P2 = (5, 90, 0), (6, 91, 2), (7, 92, 0)
+P0, P1, P2 = (5, 90, 0), (6, 91, 2), (7, 92, 0)
+# where the real process dies  ->  number of model actions it has performed
+CRASH_POINTS = (("post", 2), ("mkstemp", 7), ("write", 8), ("close", 9), ("replace", 10), ("after", 11), ("inplace", None))
 
-    # --- crash points ------------------------------------------------------------------------------
-    # (model actions executed before the crash, where the real process dies)
+
+def findings_crash(ctx, bench):
+    """A forked child runs request_profile() and really dies (os._exit) at the given point: no `except`, no `finally`,
+    no flushing of buffers — the temporary file, if any, stays behind."""
+    beh = ("p",) + P1
+    answer(beh)                 # build the response bytes in the parent: the child's caches die with it
     for init in (("absent",), ("complete", P0)):
-        for n, where in ((2, "post"), (7, "openwb"), (8, "write"), (9, "close")):
+        for where, n in CRASH_POINTS:
             bench.set_disk(disk_bytes(init))
-            c = bench.client()
-
-            def gate(kind, where=where):
-                if kind == where:
-                    raise Crash()
-            bench.hook = (lambda seen: (_ for _ in ()).throw(Crash())) if where == "post" else None
-            bench.cur = answer(("p",) + P1)
-            with OpenWrap(gate):
+            clean_strays()
+            pid = os.fork()
+            if pid == 0:
                 try:
-                    c.request_profile()
-                    died = False
-                except Crash:
-                    died = True
-            bench.hook = None
-            after = view_bytes(bench.get_disk())
-            nxt = bench.call(bench.client(), ("U",))
-            rep = ctx.model.ask1(line("cache.sched", enc_disk(init), [enc_beh(("p",) + P1)],
-                                      [[Atom("s"), 0]] * n + [[Atom("c"), 0]]))
-            mview = dec_view(rep.vals[0][-1]) if rep.ok else rep.raw
-            case = {"op": "crash", "init": init, "beh": ("p",) + P1, "after_actions": n, "where": where}
-            ctx.compare("cache.crash", case, [died, after], [True, mview])
-            mnext = model_seq(ctx, [(("empty",) if mview == ["empty"] else
-                                     ("absent",) if mview == ["absent"] else ("complete", tuple(mview[1:])), [("U",)])])[0]
-            start = ("empty",) if after == ["empty"] else init
-            ctx.compare("cache.crash.next", case, canon_obs([nxt], start, [("U",)]), canon_obs(mnext, start, [("U",)]))
-            ok_views = (["absent"], ["complete"] + list(P0), ["complete"] + list(P1))
-            if after not in ok_views:
-                ctx.violate("cache_torn_by_crash_after_open", case,
-                            f"a crash between open(path,'wb') and write leaves the cache file {after[0]}; the next "
-                            f"request_profile() then fails ({nxt[0]}) although the server answered 'up to date'",
-                            {"where": where, "file": after[0], "next_call_fails": nxt[0][0] == "err"})
-    bench.set_disk(None)
+                    def gate(kind):
+                        if kind == where:
+                            os._exit(9)
 
-    # --- two writers: all interleavings of open/write/close ------------------------------------------
-    acts = ("openwb", "write", "close")
-    scheds = [s for s in itertools.product((0, 1), repeat=6) if sum(s) == 3]
+                    def after(kind):
+                        if where == "after" and kind == "replace":
+                            os._exit(9)
+                    bench.hook = (lambda seen: os._exit(9)) if where == "post" else None
+                    bench.cur = answer(beh)
+                    with Hooks(gate, after):
+                        bench.client().request_profile()
+                    os._exit(0)
+                except BaseException:  # noqa
+                    os._exit(3)
+            _, status = os.waitpid(pid, 0)
+            died = os.WIFEXITED(status) and os.WEXITSTATUS(status) == 9
+            if where == "inplace" and not died:
+                ctx.stat("in-place rewrite not present")      # as it must be: the point does not exist in the repaired code
+                continue
+            after_view = view_bytes(bench.get_disk())
+            strays = len(stray_files())
+            clean_strays()
+            start = ("absent",) if after_view == ["absent"] else (
+                ("complete", tuple(after_view[1:])) if after_view[0] == "complete" else ("empty",))
+            nxt = bench.call(bench.client(), ("U",))
+            rep = ctx.model.ask1(line("cache.sched", enc_disk(init), [enc_beh(beh)],
+                                      [[Atom("s"), 0]] * (n or 0) + [[Atom("c"), 0]]))
+            if n is None:
+                mod = "the model has no in-place rewrite"
+            elif rep.ok:
+                mod = [True, dec_view(rep.vals[0][-1]), 1 if rep.vals[1][0][2] == "T" else 0]
+            else:
+                mod = rep.raw
+            case = {"op": "crash", "init": init, "beh": beh, "after_actions": n, "where": where}
+            ctx.compare("cache.crash", case, [died, after_view, strays], mod)
+            ctx.stat("crash points")
+            ok_views = (["absent"], ["complete"] + list(P0), ["complete"] + list(P1))
+            if after_view not in ok_views:
+                ctx.violate("cache_torn_by_crash_after_open", case,
+                            f"a process dying at '{where}' leaves the cache file {after_view[0]}; the next request_profile() "
+                            f"gives {nxt[0]}", {"where": where, "file": after_view[0], "next_call_fails": nxt[0][0] == "err"})
+            else:
+                mnext = model_seq(ctx, [(start, [("U",)])])[0]
+                ctx.compare("cache.crash.next", case, canon_obs([nxt], start, [("U",)]), canon_obs(mnext, start, [("U",)]))
+                spec_oracle(ctx, [(start, [("U",)])], [[nxt]])
+    bench.set_disk(None)
+    clean_strays()
+    ctx.exhaustive.append("crash (real process death in a forked child) at 6 points x 2 initial caches")
+
+
+def findings_interleave(ctx, bench, rng):
+    scheds = [s for s in itertools.product((0, 1), repeat=8) if sum(s) == 4]
+    must = [(0, 0, 0, 0, 1, 1, 1, 1), (1, 1, 1, 1, 0, 0, 0, 0), (0, 1, 0, 1, 0, 1, 0, 1), (0, 1, 1, 0, 0, 1, 1, 0),
+            (0, 0, 0, 1, 1, 1, 1, 0), (1, 0, 0, 0, 0, 1, 1, 1)]
+    if not ctx.thorough:
+        rest = [s for s in scheds if s not in must]
+        rng.shuffle(rest)
+        scheds = must + rest[: ctx.budget(6)]
+    n_run = 0
     for (pa, pb) in ((P1, P2), (P2, P1)):
         for sched in scheds:
             bench.set_disk(pbytes(P0))
-            order = []
-            pos = [0, 0]
+            order, pos = [], [0, 0]
             for t in sched:
-                order.append((t, acts[pos[t]]))
+                order.append((t, ACTS[pos[t]]))
                 pos[t] += 1
             cond = threading.Condition()
             state = {"i": 0, "views": [], "arrived": 0}
             answers = {"T0": answer(("p",) + pa), "T1": answer(("p",) + pb)}
 
             def gate(kind):
+                if kind not in ACTS:
+                    return
                 me = int(threading.current_thread().name[1:])
                 with cond:
-                    if kind == "openwb":
+                    if kind == "mkstemp":
                         state["arrived"] += 1
                         cond.notify_all()
                     ok = cond.wait_for(lambda: state["arrived"] == 2 and state["i"] < len(order)
-                                       and order[state["i"]] == (me, kind), timeout=20)
+                                       and order[state["i"]] == (me, kind), timeout=5)
                     if not ok:
                         raise RuntimeError("scheduler timeout")
 
-            def after_action():
+            def after(kind):
                 with cond:
                     state["views"].append(view_bytes(bench.get_disk()))
                     state["i"] += 1
                     cond.notify_all()
-
-            class W(OpenWrap):
-                def __call__(self, path, mode="r", *a, **k):
-                    if "w" not in mode:
-                        return open(path, mode, *a, **k)
-                    self.gate("openwb")
-                    f = open(path, mode, *a, **k)
-                    after_action()
-                    return _G(f, self.gate)
-
-            class _G(_WFile):
-                def write(self, data):
-                    n = _WFile.write(self, data)
-                    after_action()
-                    return n
-
-                def __exit__(self, *a):
-                    try:
-                        if a[0] is None:
-                            self.gate("close")
-                    finally:
-                        self.f.close()
-                        if a[0] is None:
-                            after_action()
-                    return False
 
             results = {}
 
@@ -572,7 +659,7 @@ def findings_replay(ctx, bench):
             bench.hook = None
             old_script = bench.net.script
             bench.net.script = lambda seen: answers[seen.thread]
-            with W(gate):
+            with Hooks(gate, after):
                 ths = [threading.Thread(target=work, args=(f"T{i}",), name=f"T{i}") for i in (0, 1)]
                 for t in ths:
                     t.start()
@@ -580,6 +667,7 @@ def findings_replay(ctx, bench):
                     t.join(30)
             bench.net.script = old_script
             final = view_bytes(bench.get_disk())
+            strays = len(stray_files())
             nxt = bench.call(bench.client(), ("U",))
             msched = [[Atom("s"), 0]] * 7 + [[Atom("s"), 1]] * 7 + [[Atom("s"), t] for t in sched]
             rep = ctx.model.ask1(line("cache.sched", enc_disk(("complete", P0)),
@@ -588,19 +676,30 @@ def findings_replay(ctx, bench):
             if rep.ok:
                 mviews = [dec_view(v) for v in rep.vals[0][14:]]
                 mres = [dec_ret(p[0]) if p[0] != "running" else ["running"] for p in rep.vals[1]]
+                mstray = sum(1 for p in rep.vals[1] if p[2] == "T")
             else:
-                mviews, mres = rep.raw, None
-            ctx.compare("cache.sched", case, [state["views"], [results.get("T0"), results.get("T1")]], [mviews, mres])
-            ctx.stat("interleavings")
-            if final[0] != "complete":
+                mviews, mres, mstray = rep.raw, None, None
+            ctx.compare("cache.sched", case, [state["views"], [results.get("T0"), results.get("T1")], strays],
+                        [mviews, mres, mstray])
+            n_run += 1
+            ok_views = [["complete"] + list(p) for p in (P0, pa, pb)]
+            bad = [v for v in state["views"] + [final] if v not in ok_views]
+            if bad or nxt[0][0] != "ok":
                 ctx.violate("cache_torn_by_two_writers", case,
                             f"two concurrent request_profile() calls (schedule {''.join(map(str, sched))} of their "
-                            f"open/write/close) leave the cache file {final[0]}: the next call {nxt[0]}",
-                            {"file": final[0], "next_call_fails": nxt[0][0] == "err"})
+                            f"mkstemp/write/close/replace) leave the cache file {(bad or [final])[0][0]}: the next call {nxt[0]}",
+                            {"file": (bad or [final])[0][0], "next_call_fails": nxt[0][0] == "err"})
+            else:
+                start = ("complete", tuple(final[1:]))
+                spec_oracle(ctx, [(start, [("U",)])], [[nxt]])
+    ctx.stat("interleavings", n_run)
     bench.set_disk(None)
-    ctx.exhaustive.append("all 20 interleavings of two writers' open(wb)/write/close, both size orders")
+    clean_strays()
+    text = f"{n_run // 2} of the 70 interleavings of two writers' mkstemp/write/close/replace, both size orders"
+    (ctx.exhaustive if ctx.thorough else ctx.notes).append(text)
 
-    # --- the key ignores the URL ----------------------------------------------------------------------
+
+def findings_key(ctx, bench):
     F.wipe_profiles()
     a = bench.client(url=U, org=None, fid=None)
     b = bench.client(url=V, org=None, fid=None)
